@@ -383,6 +383,78 @@ theorem ngon_on_edge (g : VirtualNgon ℝ) (oi oj : Nat) (P : Mat3 ℝ) (pre pos
     exact hpre r' hr')]
   simp only [List.map_cons, ngon_candidate_on_edge g oi oj P hd hij hi hj s t hs ht hne, firstAccept]
 
+/-! ### why edge agreement cannot extend to global continuity: a non-planar quad is two-valued
+
+    Kernel-checked counter-example inside the model.  For a non-planar quad the ray of a direction can meet the bilinear
+    surface twice inside the patch: both quadratics of `pan_axis` then have two roots in [0, 1], both root pairs pass the
+    acceptance test of `QuadRegion.handle`, and the two answers differ.  The real code takes "the first root in range"
+    in the order np.roots returns them, so which answer is given can change between neighbouring directions
+    (known finding `quad-two-in-range-roots`, reproduced on the real code by harness/c12.py). -/
+
+/-- a non-planar ("twisted") quad with rational corners: z alternates 1, -1/2, 1, -1/2 around the square -/
+noncomputable def twistedQuad : QuadRegion ℝ :=
+  ⟨[(-1/2, -1/2, 1), (1/2, -1/2, -1/2), (1/2, 1/2, 1), (-1/2, 1/2, -1/2)], [0, 1, 2, 3]⟩
+
+/-- ... and a direction whose ray meets the quad's bilinear surface twice -/
+noncomputable def twistedDir : Vec3 ℝ := (1, 1, 7/4)
+
+theorem quad_two_valued_witness :
+    -- both pan_axis quadratics at this direction are genuine quadratics with the two roots 3/4 and 5/6, both inside [0, 1]
+    (let P := (twistedQuad.polys twistedDir).1
+     P.1 ≠ 0 ∧ P.1 * (3/4) ^ 2 + P.2.1 * (3/4) + P.2.2 = 0 ∧ P.1 * (5/6) ^ 2 + P.2.1 * (5/6) + P.2.2 = 0) ∧
+    (let P := (twistedQuad.polys twistedDir).2
+     P.1 ≠ 0 ∧ P.1 * (3/4) ^ 2 + P.2.1 * (3/4) + P.2.2 = 0 ∧ P.1 * (5/6) ^ 2 + P.2.1 * (5/6) + P.2.2 = 0) ∧
+    -- both root pairs give bilinear weights whose velocity vector is a POSITIVE multiple of the direction
+    comb (QuadRegion.weights (3/4 : ℝ) (3/4)) twistedQuad.positions = smul3 (1/4) twistedDir ∧
+    comb (QuadRegion.weights (5/6 : ℝ) (5/6)) twistedQuad.positions = smul3 (1/3) twistedDir ∧
+    -- so `QuadRegion.handle` accepts the direction with either pair, and the two answers differ
+    ∃ g1 g2, twistedQuad.handle (some (3/4)) (some (3/4)) twistedDir = some g1 ∧
+      twistedQuad.handle (some (5/6)) (some (5/6)) twistedDir = some g2 ∧
+      g1.getD 2 0 = 9 * g1.getD 0 0 ∧ g2.getD 2 0 = 25 * g2.getD 0 0 ∧ 0 < g1.getD 0 0 ∧ 0 < g2.getD 0 0 ∧ g1 ≠ g2 := by
+  refine ⟨?_, ?_, ?_, ?_, ?_⟩
+  · simp only [QuadRegion.polys, QuadRegion.panPoly, twistedQuad, twistedDir, List.getD_cons_zero, List.getD_cons_succ,
+      dot3, cross3, sub3, add3]
+    norm_num
+  · simp only [QuadRegion.polys, QuadRegion.panPoly, twistedQuad, twistedDir, List.getD_cons_zero, List.getD_cons_succ,
+      dot3, cross3, sub3, add3]
+    norm_num
+  · simp only [comb, QuadRegion.weights, twistedQuad, twistedDir, add3, smul3, zero3, one_real, zero_real]
+    norm_num
+  · simp only [comb, QuadRegion.weights, twistedQuad, twistedDir, add3, smul3, zero3, one_real, zero_real]
+    norm_num
+  · have hs1 : scatter (zeros 4) twistedQuad.order (QuadRegion.weights (3/4 : ℝ) (3/4)) = [1/16, 3/16, 9/16, 3/16] := by
+      simp only [twistedQuad, scatter, zeros, QuadRegion.weights, one_real, zero_real, List.replicate, List.set]
+      norm_num
+    have hs2 : scatter (zeros 4) twistedQuad.order (QuadRegion.weights (5/6 : ℝ) (5/6)) = [1/36, 5/36, 25/36, 5/36] := by
+      simp only [twistedQuad, scatter, zeros, QuadRegion.weights, one_real, zero_real, List.replicate, List.set]
+      norm_num
+    have ha1 : ¬ dot3 (comb ([1/16, 3/16, 9/16, 3/16] : List ℝ) twistedQuad.positions) twistedDir ≤ zero := by
+      simp only [comb, twistedQuad, twistedDir, add3, smul3, zero3, dot3, zero_real]
+      norm_num
+    have ha2 : ¬ dot3 (comb ([1/36, 5/36, 25/36, 5/36] : List ℝ) twistedQuad.positions) twistedDir ≤ zero := by
+      simp only [comb, twistedQuad, twistedDir, add3, smul3, zero3, dot3, zero_real]
+      norm_num
+    have hn1 : 0 < norm ([1/16, 3/16, 9/16, 3/16] : List ℝ) := by
+      simp only [norm, sqrt_real, sumsq, zero_real]; apply Real.sqrt_pos.mpr; norm_num
+    have hn2 : 0 < norm ([1/36, 5/36, 25/36, 5/36] : List ℝ) := by
+      simp only [norm, sqrt_real, sumsq, zero_real]; apply Real.sqrt_pos.mpr; norm_num
+    refine ⟨normalise [1/16, 3/16, 9/16, 3/16], normalise [1/36, 5/36, 25/36, 5/36], ?_, ?_, ?_, ?_, ?_, ?_, ?_⟩
+    · simp only [QuadRegion.handle, hs1, if_neg ha1]
+    · simp only [QuadRegion.handle, hs2, if_neg ha2]
+    · simp only [normalise, List.map_cons, List.map_nil, List.getD_cons_zero, List.getD_cons_succ]; ring
+    · simp only [normalise, List.map_cons, List.map_nil, List.getD_cons_zero, List.getD_cons_succ]; ring
+    · simp only [normalise, List.map_cons, List.getD_cons_zero]; positivity
+    · simp only [normalise, List.map_cons, List.getD_cons_zero]; positivity
+    · intro h
+      have h0 : (normalise ([1/16, 3/16, 9/16, 3/16] : List ℝ)).getD 0 0 = (normalise ([1/36, 5/36, 25/36, 5/36] : List ℝ)).getD 0 0 := by rw [h]
+      have h2 : (normalise ([1/16, 3/16, 9/16, 3/16] : List ℝ)).getD 2 0 = (normalise ([1/36, 5/36, 25/36, 5/36] : List ℝ)).getD 2 0 := by rw [h]
+      simp only [normalise, List.map_cons, List.map_nil, List.getD_cons_zero, List.getD_cons_succ] at h0 h2
+      have p1 : (0 : ℝ) < 1 / 16 / norm ([1/16, 3/16, 9/16, 3/16] : List ℝ) := by positivity
+      have e1 : (9 / 16 : ℝ) / norm ([1/16, 3/16, 9/16, 3/16] : List ℝ) = 9 * (1 / 16 / norm ([1/16, 3/16, 9/16, 3/16] : List ℝ)) := by ring
+      have e2 : (25 / 36 : ℝ) / norm ([1/36, 5/36, 25/36, 5/36] : List ℝ) = 25 * (1 / 36 / norm ([1/36, 5/36, 25/36, 5/36] : List ℝ)) := by ring
+      rw [e1, e2, ← h0] at h2
+      linarith
+
 /-! ### piecewise continuity -/
 
 theorem continuous_clip01 : Continuous (clip01 : ℝ → ℝ) := by
